@@ -101,6 +101,21 @@ func registerRegexp() {
 		re := a[0].(*Native).v.Interface().(*regexp.Regexp)
 		bs, ok := conc(in, a[1])
 		if !ok {
+			// An unanchored search that already succeeds inside the concrete prefix
+			// succeeds whatever the remaining (symbolic) bytes are.
+			if sl, isSl := a[1].(SliceV); isSl {
+				var prefix []byte
+				for _, e := range in.sliceElems(sl) {
+					t := e.(*Term)
+					if !t.konst {
+						break
+					}
+					prefix = append(prefix, byte(t.cv))
+				}
+				if re.Match(prefix) && !strings.HasSuffix(re.String(), "$") {
+					return in.F.Bool(true), true
+				}
+			}
 			panic(&pathEnd{kind: "unsupported", msg: "regexp match on symbolic input"})
 		}
 		return in.F.Bool(re.Match(bs)), true
